@@ -34,8 +34,13 @@ def run(chk):
     chk.assume_note('melpow::Proof::verify indexes `self.0[&Node::new_zero()]` before looking at anything else (melpow 0.1.2, '
                     'src/lib.rs): modelled as "verify panics unless the proof map holds the zero node", the zero node being an '
                     'uninterpreted predicate of the proof bytes')
+    import os
+    if os.environ.get('VERIF_ONLY') == 'callsite':  # development aid: one kernel alone (never a registered command)
+        doscmint_callsite_kernel(chk, it)
+        return
     apply_kernel(chk, it)
     doscmint_kernel(chk, it)
+    doscmint_callsite_kernel(chk, it)
     fee_kernel(chk, it)
     seal_kernels(chk, it)
 
@@ -130,6 +135,63 @@ def doscmint_kernel(chk, it):
     finally:
         it.overrides = [o for o in it.overrides if o not in added and o not in added2]
         it.base_read_hooks.pop('history', None)
+
+
+def doscmint_callsite_kernel(chk, it):
+    """validate_and_get_doscmint_speed takes `tx.inputs.get(0).expect(..)`: the kernel above runs it on a transaction with an
+    input, which is its caller's obligation.  apply_tx_batch_impl reaches it only after check_tx_validity accepted every
+    transaction of the batch, so: check_tx_validity accepts no DoscMint transaction without inputs (0 inputs, 1-2 outputs, every
+    field symbolic, arbitrary state)"""
+    from mirsym.collections import MapM as _MapM
+    for nout in (1, 2):
+        G.reset()
+        G.atomic_domains = {'single:Transaction'}
+        st = State()
+        state, sterms = B.sym_state(st.pc)
+        B.install_history_invariant(it, sterms['height'])
+        st.pc += [z3.UGE(sterms['height'], 1), z3.ULE(sterms['height'], 100_000_000)]
+        tx, tt = B.sym_tx('tx', 0, nout, 1, st.pc, kind='DoscMint')
+        st.pc.append(z3.ULE(tt['fee'], 1 << 120))
+        for j in range(nout):
+            st.pc.append(z3.ULE(tt['out%d_value' % j], 1 << 120))
+        fn = it.by_last['check_tx_validity'][0]
+        outs = it.exec_fn(st, fn, [Ptr(st.alloc(state)), Ptr(st.alloc(tx)), Ptr(st.alloc(Opaque('Map', _MapM()))),
+                                   Ptr(st.alloc(Opaque('Map', _MapM())))])
+        inputs = dict(('tx_' + k_, v_) for k_, v_ in tt.items())
+        n_ret = 0
+        for idx, (s, o) in enumerate(outs):
+            name = 'check_tx_validity/0in%dout/%d' % (nout, idx)
+            rp = lambda mo, inputs=inputs, nout=nout: replay_inputless_doscmint(chk, mo, inputs, nout)
+            if isinstance(o, Panic):
+                chk.obligation('PANIC/' + name, list(s.pc), z3.BoolVal(False), inputs, replay=rp, kind='PANIC', describe=str(o))
+                continue
+            n_ret += 1
+            chk.obligation('PRE/a-doscmint-that-reaches-the-proof-check-has-an-input/' + name, list(s.pc), z3.Not(M.is_variant(o.v, 'Ok')),
+                           inputs, replay=rp, bound='DoscMint transaction with no inputs and %d output(s), all fields symbolic' % nout)
+        if not n_ret:
+            raise Inconclusive('check_tx_validity has no returning path on an input-less transaction')
+    it.base_read_hooks.pop('history', None)
+
+
+def replay_inputless_doscmint(chk, model, inputs, nout):
+    """a DoscMint transaction without inputs, outputs and fee as in the model (ERG outputs are exempt from the balance test):
+    natively, does applying it panic or get accepted?"""
+    ev = lambda k: harness.model_int(model, inputs[k])
+    den = {0: 'MEL', 1: 'SYM', 2: 'ERG', 3: 'NEWCUSTOM'}
+    outs = []
+    for j in range(nout):
+        tag = ev('tx_out%d_denom_tag' % j) if ('tx_out%d_denom_tag' % j) in inputs else 2
+        d = den.get(tag, 'ERG')
+        outs.append({'covhash': {'covhash_of': 'true'}, 'value': str(ev('tx_out%d_value' % j)), 'denom': d, 'adata': '%02x' % j})
+    txs = [{'name': 'a', 'kind': 0x50, 'inputs': [], 'fee': str(ev('tx_fee')), 'covenants': ['true'], 'data': '', 'outputs': outs}]
+    sc = {'kind': 'batch', 'network': 2, 'height': 5, 'fee_pool': '0', 'tips': '0', 'fee_multiplier': '0', 'dosc_speed': '1000000',
+          'coins': [], 'txs': txs, 'probes': [], 'pools': []}
+    out = harness.run_replay([sc], 'dev')[0]
+    if 'error' in out or 'unrealizable' in out:
+        raise Inconclusive('replay: %s' % str(out)[:300])
+    run = out['runs'][0]
+    bad = bool(run.get('panicked')) or run.get('result') == 'Ok'
+    return bad, sc, {'panicked': run.get('panicked'), 'result': run.get('result'), 'msg': (run.get('msg') or '')[-200:]}
 
 
 def replay_empty_proof(chk):
